@@ -59,7 +59,7 @@ def toiArg? : String → Option ToiArg
 
 def reason : Refuse → String
   | .noPriorityQueue => "noq" | .fdtComplete => "complete" | .xmlMetadata => "xml" | .foreignToi => "foreign"
-  | .tooLong => "toolong" | .rsNoParity => "rsnoparity" | .rsBlockOver256 => "rs256" | .blockOverKmax => "kmax"
+  | .notImplemented => "notimpl" | .tooLong => "toolong" | .rsNoParity => "rsnoparity" | .rsFtiFields => "rsfields" | .rsBlockOver255 => "rs255" | .blockOverKmax => "kmax"
   | .noSchemeSpecific => "noscheme" | .tooManyBlocks => "toomanyblocks"
 
 /-- Z as the FDT File entry announces it (`scheme_specific_info`): only for the variant of the encoding id -/
